@@ -254,7 +254,35 @@ func FromRat(r *big.Rat) Decimal {
 
 	denom := r.Denom()
 
+	if num.BitLen() > maxIntBits || denom.BitLen() > maxIntBits {
+		// One of the parts is beyond the exponent range of a Decimal even
+		// though the quotient may not be. Divide by powers of ten first.
+		snum, nexp := scaleInt(num)
+		sdenom, dexp := scaleInt(denom)
+
+		return Ldexp(FromInt(snum).Quo(FromInt(sdenom)), nexp-dexp)
+	}
+
 	return FromInt(num).Quo(FromInt(denom))
+}
+
+// maxIntBits is the bit length up to which every big.Int is within the
+// exponent range of a Decimal (2**20000 < 10**6021).
+const maxIntBits = 20000
+
+// scaleInt divides i by a power of ten so that the quotient has roughly
+// maxIntBits/2 bits, and returns the quotient along with the exponent of the
+// power of ten. Values that are already small enough are returned unchanged.
+func scaleInt(i *big.Int) (*big.Int, int) {
+	bl := i.BitLen()
+	if bl <= maxIntBits {
+		return i, 0
+	}
+
+	exp := (bl - maxIntBits/2) * 30103 / 100000
+	pow := new(big.Int).Exp(big.NewInt(10), big.NewInt(int64(exp)), nil)
+
+	return new(big.Int).Quo(i, pow), exp
 }
 
 // FromUint32 converts i into a Decimal.
